@@ -24,7 +24,8 @@ ASSUMPTIONS = ['bootloader protocol: 0x10 info, 0x12 mapping, 0x14 load buffer (
 REQUIRED = ['mon.flashes_completed', 'mon.images_compared', 'mon.load_buffer_packets', 'mon.too_large_refused',
             'mon.reply_scripts', 'mon.aborted_after_failure', 'mon.page_override', 'mon.exact_multiples',
             'mon.flashes_with_progress_callback', 'mon.late_answer_then_failing_write',
-            'mon.second_flash_with_the_same_bootloader', 'mon.unanswered_write_on_a_busy_downlink']
+            'mon.second_flash_with_the_same_bootloader', 'mon.unanswered_write_on_a_busy_downlink',
+            'mon.two_target_sessions_with_duplicated_info_answers']
 EXHAUSTIVE = {'quick': False, 'thorough': False}
 DESC_TIMEOUT = 1200
 
@@ -312,6 +313,92 @@ def flash_once(ctx, tid, ps, bp, fp, sp, length, override, script, rnd, label):
     return (len(loads), len(writes))
 
 
+class DualLink:
+    """Both targets of a Crazyflie 2 behind one link; get-info answers may arrive more than once (the library re-sends
+    the request when an answer is slow and nothing empties the downlink queue in between)."""
+
+    def __init__(self, targets, dup_info):
+        self.targets = targets
+        self.dup_info = dup_info        # tid -> number of copies of the get-info answer
+        self.out = []
+        self.bad = []
+
+    def send_packet(self, pk):
+        d = bytes(pk.data)
+        t = self.targets.get(d[0]) if d else None
+        if t is None:
+            self.bad.append(('packet for no target', d[:4]))
+            return True
+        n0 = len(t.out)
+        t.handle(pk.header, d)
+        new = t.out[n0:]
+        del t.out[n0:]
+        if len(d) > 1 and d[1] == 0x10:
+            new = new * self.dup_info.get(d[0], 1)
+        self.out.extend(new)
+        return True
+
+    def receive_packet(self, wait=0):
+        from cflib.crtp.crtpstack import CRTPPacket
+        if self.out:
+            return CRTPPacket(0xFF, list(self.out.pop(0)))
+        return None
+
+    def close(self):
+        pass
+
+
+def two_targets(ctx, rnd, label):
+    """Geometry of each target is taken from that target's own answer, whatever else is queued on the downlink; the
+    image then lands in the right target at its own start page."""
+    from cflib.bootloader import Bootloader, FlashArtifact
+    from cflib.bootloader import Target as ArtTarget
+    geo = {0xFF: (1024, 10, rnd.choice((128, 1024)), rnd.choice((4, 16))), 0xFE: (1024, 1, rnd.choice((64, 232)), rnd.choice((8, 40)))}
+    tg = {tid: Target(tid, *g) for tid, g in geo.items()}
+    first, second = rnd.choice(((0xFF, 0xFE), (0xFE, 0xFF)))
+    link = DualLink(tg, {first: rnd.choice((2, 3)), second: rnd.choice((1, 2))})
+    bl = Bootloader('radio://0/0/2M')
+    bl._cload.link = link
+    ctx.evals()
+    ctx.count('mon.two_target_sessions_with_duplicated_info_answers')
+    info = {'case': label, 'geometries': {hex(k): v for k, v in geo.items()}, 'queried_first': hex(first)}
+    try:
+        ok1 = bl._cload._update_info(first)
+        ok2 = bl._cload._update_info(second)
+    except Exception as e:  # noqa
+        ctx.violate('flash:info-exchange-raised:%s' % type(e).__name__, dict(info, error=repr(e)[:200]))
+        return
+    for tid in (first, second):
+        t = bl._cload.targets.get(tid)
+        got = None if t is None else (t.page_size, t.buffer_pages, t.flash_pages, t.start_page)
+        if got != geo[tid]:
+            ctx.violate('flash:geometry-parsed-wrongly', dict(info, target=hex(tid), got=got, want=geo[tid], ok=(ok1, ok2)))
+            return
+    # flash the target queried second
+    ps, bp, fp, sp = geo[second]
+    length = rnd.randint(1, 3 * ps)
+    image = rnd.randbytes(length)
+    link.out.clear()
+    for t in tg.values():
+        t.log.clear()
+    old = sys.stdout
+    sys.stdout = io.StringIO()
+    exc = None
+    try:
+        bl._internal_flash(FlashArtifact(image, ArtTarget('cf2', 'stm32' if second == 0xFF else 'nrf51', 'fw', [], []), None))
+    except Exception as e:  # noqa
+        exc = e
+    finally:
+        sys.stdout = old
+    tt, other = tg[second], tg[first]
+    npages = (length - 1) // ps + 1
+    if exc is not None or tt.bad or link.bad or bytes(tt.flash[sp * ps:sp * ps + length]) != image or \
+            any(p < sp or p >= sp + npages for p in tt.written) or other.written or other.log:
+        ctx.violate('flash:wrong-target-or-pages-with-two-targets', dict(info, flashed=hex(second), raised=repr(exc), pages=sorted(tt.written),
+                                                                       other_target_touched=bool(other.written or other.log),
+                                                                       bad=[str(b) for b in (tt.bad + link.bad)[:2]]))
+
+
 def run(desc, ctx):
     core.setup_path()
     import logging
@@ -322,6 +409,8 @@ def run(desc, ctx):
         script = {(a, b): c for a, b, c in desc['script']}
         flash_once(ctx, desc['tid'], ps, bp, fp, desc['sp'], desc['length'], desc['override'], script, rnd, 'replay')
         return
+    for k in range(6):
+        two_targets(ctx, rnd, 'two-targets-%d' % k)
     first = None
     if desc['mode'] == 'lengths':
         for sp in range(0, fp):
